@@ -29,7 +29,7 @@ const (
 	zzvDirMode   = 0o755
 	zzvFileMode  = 0o644
 	zzvDirModeC  = 0o750 // after chmod ("c")
-	zzvFileModeC = 0o600
+	zzvFileModeC = 0o750
 )
 
 func zzvReal(root string, p []string) string {
